@@ -8,6 +8,7 @@
                                       through channels (and timing_mark on LLTEM); DC / MT: depth 5, two re-opens
   <PAIR>_te.cfg  thorough, edits:     every setter of the pair, rejected values, depth 4, cross-workspace copies
   (the thorough tier also runs the two quick configurations)
+  DC_qr / AFEM_qr (quick), DC_tr / AFEM_tr (thorough): re-linking with additional originals (Extras)
   <PAIR>_dev_<Deviation>.cfg  negative controls: exactly one named deviation on, TLC must report a violated property
 Run:  cd /verif/spec/survey && /venv/bin/python gen_cfgs.py
 """
@@ -37,6 +38,9 @@ QS_DEPTH = {"ATEM": 4, "AFEM": 3, "MLTEM": 3, "MLFEM": 3, "LLTEM": 3, "LLFEM": 4
 # station), DC / MT at depth 5, the pairs that share BaseEMSurvey.copy unchanged at depth 3
 TS_DEPTH = {"ATEM": 4, "AFEM": 3, "MLTEM": 3, "MLFEM": 3, "LLTEM": 4, "LLFEM": 4, "TIP": 3, "TIP1": 4, "DC": 5, "MT": 5}
 
+# pairs explored with additional originals (constant Extras) for re-linking: quick value
+RELINK = {"DC": 2, "AFEM": 1}
+
 INV = """VIEW vw
 INVARIANT Mutual
 INVARIANT BothIds
@@ -64,7 +68,8 @@ def tla_set(xs):
     return "{" + ", ".join(f'"{x}"' for x in xs) + "}"
 
 
-def cfg(pair, depth, copies, edits, reopens, ops, modes, masks, vals, when, bad=False, devs=(), export=True):
+def cfg(pair, depth, copies, edits, reopens, ops, modes, masks, vals, when, bad=False, devs=(), export=True,
+        extras=0):
     return f"""SPECIFICATION Spec
 CONSTANTS
   Pair = "{pair}"
@@ -79,6 +84,7 @@ CONSTANTS
   BadValues = {"TRUE" if bad else "FALSE"}
   ValuesPerOp = {vals}
   EditWhen = "{when}"
+  Extras = {extras}
   Deviations = {tla_set(devs)}
 {INV}{EXPORT if export else ""}CHECK_DEADLOCK FALSE
 """
@@ -96,6 +102,10 @@ def main():
                       t_modes, ["lo", "mid"], 1, "copied"),
             "te": cfg(pair, 4, 1, 2, 1, ALL_OPS, ["plain-other"], ["lo"], 2, "always", bad=True),
         }
+        if pair in RELINK:
+            # re-linking with a second A (and B): take-over, re-open, link again from either side
+            files["qr"] = cfg(pair, 4, 0, 1, 1, ["channels"], ["plain-same"], ["lo"], 1, "always", extras=RELINK[pair])
+            files["tr"] = cfg(pair, 5, 1, 1, 1, ["channels"], ["plain-same"], ["lo"], 1, "always", extras=2)
         for name, text in files.items():
             with open(f"{pair}_{name}.cfg", "w", encoding="ascii") as fh:
                 fh.write(text)
@@ -109,12 +119,15 @@ NEGATIVE = [
     ("TIP", "UnitSetterTIP", ["unit"]),                                  # ValidEditsAccepted
     ("MLTEM", "LoopRadiusNoneHalfApplied", ["loop_radius"]),             # WriteThrough / RefusedIsNoop
     ("TIP1", "TipperSingleBaseMaskedCopy", ["channels"]),                # RefusedIsNoop / CopyCopiesPartner
+    ("DC", "RelinkKeepsCachedPartner", []),                              # LinkSticks / BothIds
+    ("AFEM", "RelinkLeavesSharedDictionary", ["channels"]),              # WriteThrough
 ]
 
 
 def negatives():
     for pair, dev, ops in NEGATIVE:
-        text = cfg(pair, 3, 1, 2, 1, ops, ["plain-same", "extent-same"], ["lo"], 2, "always", devs=[dev], export=False)
+        text = cfg(pair, 3, 1, 2, 1, ops, ["plain-same", "extent-same"], ["lo"], 2, "always", devs=[dev], export=False,
+                   extras=2 if dev.startswith("Relink") else 0)
         with open(f"{pair}_dev_{dev}.cfg", "w", encoding="ascii") as fh:
             fh.write(text)
 
